@@ -123,11 +123,11 @@ type WriteRec struct {
 
 // WTap is an io.Writer that records everything and can fail on purpose.
 type WTap struct {
-	Buf   []byte
-	Call  int // API call in progress (set by the harness)
-	NW    int // Write calls so far
-	Log   []WriteRec
-	Keep  bool
+	Buf  []byte
+	Call int // API call in progress (set by the harness)
+	NW   int // Write calls so far
+	Log  []WriteRec
+	Keep bool
 	// FailIdx ≥ 0: the Write call with this index fails with ErrInjected after accepting Partial bytes; when Permanent all later
 	// calls fail too.
 	FailIdx   int
